@@ -336,7 +336,7 @@ func (g *gen) peerStep() {
 	}
 	switch g.pick(30, 10, 6, 6, 5, 6, 4, 3, 8, 6, 6, 3, 2, 2, 2, 2, 1) {
 	case 0: // in-sequence application message
-		m := g.base([]string{"D", "8", "F"}[g.rng.Intn(3)], t)
+		m := g.base([]string{"D", "8", "F", "j", "D"}[g.rng.Intn(5)], t)
 		if g.rng.Intn(4) == 0 {
 			g.routing(&m)
 		}
@@ -347,8 +347,8 @@ func (g *gen) peerStep() {
 			g.possdupify(&m)
 		}
 		g.incoming(m)
-	case 2: // heartbeat
-		g.incoming(g.base("0", g.seqNear()))
+	case 2: // heartbeat (or a session-level Reject from the peer: administrative, no reaction expected)
+		g.incoming(g.base([]string{"0", "0", "0", "3"}[g.rng.Intn(4)], g.seqNear()))
 	case 3: // test request
 		m := g.base("1", g.seqNear())
 		if g.rng.Intn(6) != 0 {
@@ -406,7 +406,7 @@ func (g *gen) peerStep() {
 		}
 		g.incoming(m)
 	case 8: // defective message
-		m := g.base([]string{"D", "0", "1", "2", "4", "5", "A", "8"}[g.rng.Intn(8)], g.seqNear())
+		m := g.base([]string{"D", "0", "1", "2", "4", "5", "A", "8", "3", "j"}[g.rng.Intn(10)], g.seqNear())
 		if m.typ == "2" {
 			m.beginseq = fVal(Int(1))
 			m.endseq = fVal(Int(0))
